@@ -117,7 +117,7 @@ var $mapDelete = (m, key) => {
 // Returns a method bound to the receiver instance, safe to invoke as a 
 // standalone function. Bound function is cached for later reuse.
 var $methodVal = (recv, name) => {
-    var vals = recv.$methodVals || {};
+    var vals = recv.$methodVals || Object.create(null); /* no inherited members: a method may be named toString */
     if (Object.isExtensible(recv)) {
       recv.$methodVals = vals; /* noop for primitives */
     }
